@@ -5,7 +5,7 @@ import time
 import z3
 
 from . import registry as R
-from .engine import (GROUPS, GEN, NOTATION, Ctx, Engine, Obligation, State, Unsupported, V, VNONE, _fresh, exc_isa, fresh_value,
+from .engine import (ALL_GEN, GROUPS, GEN, null_guard, NOTATION, Ctx, Engine, Obligation, State, Unsupported, V, VNONE, _fresh, exc_isa, fresh_value,
                      lift, py)
 from .frontend import own_loops
 from .sorts import NONE, PY
@@ -220,10 +220,10 @@ def frame_obligations(eng, c, st, node):
     for m in eng.expand_modifies(c.modifies):
         if "@" in m:
             base, expr = m.split("@", 1)
-            ov = SpecEval(eng, _pre_view(st), pre_state=None).value(expr)
             names = list(GROUPS[base]) if base in GROUPS else [base, base + "#n"]
+            ot = ALL_GEN if expr.strip() == "GEN" else null_guard(expr, _pre_view(st).env, lift(SpecEval(eng, _pre_view(st), pre_state=None).value(expr)).t)
             for nm in names:
-                gran.setdefault(nm, []).append(lift(ov).t)
+                gran.setdefault(nm, []).append(ot)
             continue
         if m in GROUPS:
             mods |= set(GROUPS[m])
@@ -237,7 +237,8 @@ def frame_obligations(eng, c, st, node):
         if before is None or now.eq(before):
             continue
         o = z3.Int(f"o!{next(_fresh)}")
-        excl = [o != x for x in gran.get(nm, [])]
+        own0 = st.old.heap.arrs.get("obj.owner")
+        excl = [(z3.Select(own0 if own0 is not None else eng.arr(st, "obj.owner"), o) != GEN) if x.eq(ALL_GEN) else (o != x) for x in gran.get(nm, [])]
         g = z3.ForAll([o], z3.Implies(z3.And(o >= 1, o <= alloc0, *excl), z3.Select(now, o) == z3.Select(before, o)))
         eng.oblige(st, g, "frame", nm, node, text=f"{nm} of every pre-existing object is unchanged" + (" except the objects named in modifies" if excl else " (not in modifies)"))
     for gname, now in st.ghost.items():
